@@ -115,6 +115,18 @@ PROPS["C15"] = {
                    "reports 200 only when the handler's set_value returned. The configparser / dulwich-config file round trips "
                    "are ASSUMED (bounded conformance only).",
 }
+PROPS["C14"] = {
+    "level": "other",
+    "functions": ["xandikos.icalendar.validate_component", "xandikos.icalendar.ICalendarFile.validate",
+                  "xandikos.vcard.VCardFile.validate", G + "GitStore.import_one", WEB + "ObjectResource.set_body",
+                  WEB + "StoreBasedCollection.create_member", G + "BareGitStore._import_one", G + "TreeGitStore._import_one"],
+    "explanation": "validate() raises exactly for unparseable / error-carrying / control-character-carrying bodies (at any "
+                   "component depth) and for unframed or invalid cards; import_one validates before any effect and stores "
+                   "normalized(); an upload whose stored form equals the current blob adds no commit and keeps etag and ctag. "
+                   "That icalendar's to_ical(from_ical(x)) is idempotent (so that re-uploading the *served* bytes is such a "
+                   "no-op) is a library property: ASSUMED, bounded conformance only.",
+}
+PROPS["C06"]["functions"] += ["xandikos.icalendar.ICalendarFile.get_uid"]
 PROPS["C13"] = {
     "level": "proof",
     "functions": [WEB + "XandikosBackend._map_to_file_path", WEB + "XandikosBackend.get_resource",
